@@ -31,6 +31,57 @@ pub struct Sched {
     pub next_id: Cell<u64>,
     /// The shared, append-only event log (provider events + executor events).
     pub log: RefCell<Vec<Ev>>,
+    /// Threaded mode: provider futures are completed by helper threads after random delays
+    /// (wakers are called from other threads while the solver thread may be polling).
+    pub threaded: Cell<bool>,
+    pub trng: Cell<u64>,
+    pub outstanding: Arc<std::sync::atomic::AtomicUsize>,
+    pub thread_wakes: Cell<u64>,
+}
+
+/// Completion flag shared with a helper thread.
+pub struct TFlag {
+    ready: AtomicBool,
+    waker: std::sync::Mutex<Option<Waker>>,
+}
+
+struct Job {
+    delay_us: u64,
+    flag: Arc<TFlag>,
+    outstanding: Arc<std::sync::atomic::AtomicUsize>,
+}
+
+fn helper_pool() -> &'static std::sync::Mutex<std::sync::mpsc::Sender<Job>> {
+    static POOL: std::sync::OnceLock<std::sync::Mutex<std::sync::mpsc::Sender<Job>>> = std::sync::OnceLock::new();
+    POOL.get_or_init(|| {
+        let (tx, rx) = std::sync::mpsc::channel::<Job>();
+        let rx = Arc::new(std::sync::Mutex::new(rx));
+        for _ in 0..6 {
+            let rx = rx.clone();
+            std::thread::spawn(move || {
+                loop {
+                    let job = match rx.lock().unwrap().recv() {
+                        Ok(j) => j,
+                        Err(_) => return,
+                    };
+                    if job.delay_us > 0 {
+                        std::thread::sleep(std::time::Duration::from_micros(job.delay_us));
+                    } else {
+                        std::thread::yield_now();
+                    }
+                    job.flag.ready.store(true, Ordering::SeqCst);
+                    // wake first, then count down: when the solver thread sees "nothing
+                    // outstanding" every wake has already been delivered
+                    let w = job.flag.waker.lock().unwrap().take();
+                    if let Some(w) = w {
+                        w.wake();
+                    }
+                    job.outstanding.fetch_sub(1, Ordering::SeqCst);
+                }
+            });
+        }
+        std::sync::Mutex::new(tx)
+    })
 }
 
 /// A suspension point inside a provider callback.
@@ -39,11 +90,12 @@ pub struct Pause {
     tag: Ev,
     active: bool,
     state: Option<(u64, Rc<Cell<bool>>)>,
+    tflag: Option<Arc<TFlag>>,
 }
 
 impl Pause {
     pub fn new(sched: Rc<Sched>, tag: Ev, active: bool) -> Self {
-        Pause { sched, tag, active, state: None }
+        Pause { sched, tag, active, state: None, tflag: None }
     }
 }
 
@@ -52,6 +104,38 @@ impl Future for Pause {
     fn poll(mut self: Pin<&mut Self>, cx: &mut Context<'_>) -> Poll<()> {
         if !self.active || !self.sched.enabled.get() {
             return Poll::Ready(());
+        }
+        if self.sched.threaded.get() {
+            match &self.tflag {
+                None => {
+                    let flag = Arc::new(TFlag { ready: AtomicBool::new(false), waker: std::sync::Mutex::new(Some(cx.waker().clone())) });
+                    self.tflag = Some(flag.clone());
+                    let mut x = self.sched.trng.get();
+                    x ^= x << 13;
+                    x ^= x >> 7;
+                    x ^= x << 17;
+                    self.sched.trng.set(x);
+                    let delay_us = match x % 4 {
+                        0 => 0,
+                        1 => x % 40,
+                        _ => x % 400,
+                    };
+                    self.sched.outstanding.fetch_add(1, Ordering::SeqCst);
+                    helper_pool().lock().unwrap().send(Job { delay_us, flag, outstanding: self.sched.outstanding.clone() }).expect("helper pool");
+                    return Poll::Pending;
+                }
+                Some(f) => {
+                    if f.ready.load(Ordering::SeqCst) {
+                        return Poll::Ready(());
+                    }
+                    *f.waker.lock().unwrap() = Some(cx.waker().clone());
+                    // the helper may have finished between the load and the store
+                    if f.ready.load(Ordering::SeqCst) {
+                        return Poll::Ready(());
+                    }
+                    return Poll::Pending;
+                }
+            }
         }
         match &self.state {
             None => {
@@ -107,6 +191,8 @@ pub enum Policy {
     DepsFirst,
     /// explicit choice indices; after they run out: oldest
     Explicit(Vec<usize>),
+    /// not a release policy: provider futures are completed by helper threads after random delays
+    Threads(u64),
 }
 
 pub struct ManualRt {
@@ -138,9 +224,13 @@ impl ManualRt {
     pub fn new(sched: Rc<Sched>, policy: Policy) -> Self {
         sched.enabled.set(true);
         let seed = match &policy {
-            Policy::Random(s) => *s,
+            Policy::Random(s) | Policy::Threads(s) => *s,
             _ => 1,
         };
+        if let Policy::Threads(s) = &policy {
+            sched.threaded.set(true);
+            sched.trng.set(s.wrapping_mul(0x9E3779B97F4A7C15) | 1);
+        }
         ManualRt {
             sched,
             policy: RefCell::new(policy),
@@ -184,6 +274,7 @@ impl ManualRt {
             Policy::CandsFirst => by_kind(true),
             Policy::DepsFirst => by_kind(false),
             Policy::Explicit(v) => v.get(step).copied().unwrap_or(0).min(n - 1),
+            Policy::Threads(_) => 0,
         }
     }
     pub fn release_sequence_hash(&self) -> u64 {
@@ -198,6 +289,53 @@ impl ManualRt {
 impl resolvo::runtime::AsyncRuntime for ManualRt {
     fn block_on<F: Future>(&self, f: F) -> F::Output {
         let mut f = std::pin::pin!(f);
+        if self.sched.threaded.get() {
+            // real cross-thread wake-ups: park the solver thread until some helper wakes it
+            struct ThreadWaker {
+                thread: std::thread::Thread,
+                woken: AtomicBool,
+            }
+            impl Wake for ThreadWaker {
+                fn wake(self: Arc<Self>) {
+                    self.woken.store(true, Ordering::SeqCst);
+                    self.thread.unpark();
+                }
+                fn wake_by_ref(self: &Arc<Self>) {
+                    self.woken.store(true, Ordering::SeqCst);
+                    self.thread.unpark();
+                }
+            }
+            let tw = Arc::new(ThreadWaker { thread: std::thread::current(), woken: AtomicBool::new(false) });
+            let waker = Waker::from(tw.clone());
+            let mut cx = Context::from_waker(&waker);
+            loop {
+                tw.woken.store(false, Ordering::SeqCst);
+                match f.as_mut().poll(&mut cx) {
+                    Poll::Ready(v) => return v,
+                    Poll::Pending => {
+                        self.quiescent_points.set(self.quiescent_points.get() + 1);
+                        let t0 = std::time::Instant::now();
+                        loop {
+                            if tw.woken.load(Ordering::SeqCst) {
+                                self.sched.thread_wakes.set(self.sched.thread_wakes.get() + 1);
+                                break;
+                            }
+                            if self.sched.outstanding.load(Ordering::SeqCst) == 0 {
+                                // every helper has delivered its wake before counting down
+                                if tw.woken.load(Ordering::SeqCst) {
+                                    break;
+                                }
+                                std::panic::panic_any(Deadlock);
+                            }
+                            std::thread::park_timeout(std::time::Duration::from_millis(20));
+                            if t0.elapsed().as_secs() > 60 {
+                                panic!("harness: helper threads did not complete within 60 s");
+                            }
+                        }
+                    }
+                }
+            }
+        }
         let flag = Arc::new(FlagWaker(AtomicBool::new(false)));
         let waker = Waker::from(flag.clone());
         let mut cx = Context::from_waker(&waker);
